@@ -400,7 +400,10 @@ def _root(p):
         for i, rep in f.rel.items():
             if p.is_ground or rep.is_ground:
                 break
-            q, r = divmod(p, rep)
+            try:
+                q, r = _with_alarm(FACTOR_TIME_CAP, lambda: divmod(p, rep))
+            except _Timeout:
+                continue            # division too expensive (only seen on mutated code): keep the radicand whole
             if r == 0:
                 # rep divides p: p = rep*q = g^2 * q
                 p = q
